@@ -94,7 +94,7 @@ structure Worker where
 /-- the body of `rdbReplay`'s loop for one entry on worker `w` -/
 def workerStep (cfg : RCfg) (w : Worker) (ex : Exists) (e : Entry) : Worker × Exists × Bool :=
   if e.db ≠ -1 ∧ cfg.dbBlack.contains e.db then (w, ex, true) else
-  let (w1 : Worker) :=
+  let w1 : Worker :=
     if e.db = -1 then w else
     let t := mapDb cfg e.db
     if t ≠ w.cur then { cur := t, log := w.log ++ [cmdB b!"select" [intToDec t]] } else w
